@@ -18,7 +18,9 @@ def auditCmd (path : String) : IO Unit := do
   match Load.loadStory (2 * cs.length + 16) doc with
   | .ok ld =>
     match Audit.rows ld.root (2 * cs.length + 16) with
-    | some rows => for r in rows do out.putStrLn r.render
+    | some rows =>
+      for r in rows do out.putStrLn r.render
+      out.putStrLn (Json.obj [("t", .str "wf"), ("tree", .bool (wfTreeB (2 * cs.length + 16) ld.root))]).render
     | none => out.putStrLn (Json.obj [("t", .str "panic")]).render
   | .err k m => out.putStrLn (Json.obj [("t", .str "loaderr"), ("k", .str k), ("m", .str m)]).render
   | .panic s => out.putStrLn (Json.obj [("t", .str "panic"), ("site", .str s)]).render
